@@ -140,6 +140,7 @@ def setup():
 
 
 def main(argv):
+    core.reset_signals()
     if not argv:
         print(__doc__)
         return 2
